@@ -14,6 +14,7 @@
 import YalafiVerif.Proofs.Shell
 import YalafiVerif.Proofs.Reports
 import YalafiVerif.Properties.SystemStmt
+import YalafiVerif.Properties.SystemMLStmt
 namespace Yalafi
 
 theorem C14_mapMatch_word (cm : List Int) (latex : Str) (o l : Nat) (c : Int)
@@ -22,15 +23,26 @@ theorem C14_mapMatch_word (cm : List Int) (latex : Str) (o l : Nat) (c : Int)
   mapMatch_word cm latex o l c hl hc h0 hpos
 
 theorem C14_assemble_shift (ps : List (Part × List RawMatch)) (p : Part × List RawMatch) :
-    assemble (ps ++ [p]) =
-      { plainTot := (assemble ps).plainTot ++ p.1.plain ++ ['\n', '\n'],
-        charmapTot := ((assemble ps).charmapTot ++ p.1.charmap) ++
-          [(((assemble ps).charmapTot ++ p.1.charmap).getLast?).getD 0, (((assemble ps).charmapTot ++ p.1.charmap).getLast?).getD 0],
-        hits := (assemble ps).hits ++ p.2.map (fun m => { m with offset := m.offset + ((assemble ps).plainTot.length : Int) }) } :=
+    assembleNB (ps ++ [p]) =
+      { plainTot := (assembleNB ps).plainTot ++ p.1.plain ++ ['\n', '\n'],
+        charmapTot := ((assembleNB ps).charmapTot ++ p.1.charmap) ++
+          [(((assembleNB ps).charmapTot ++ p.1.charmap).getLast?).getD 0, (((assembleNB ps).charmapTot ++ p.1.charmap).getLast?).getD 0],
+        hits := (assembleNB ps).hits ++ p.2.map (fun m => { m with offset := m.offset + ((assembleNB ps).plainTot.length : Int) }) } :=
   assemble_append ps p
 
+/-- the loop of `run_proofreader_options` over the parts (`assemble`, with `if not plain.strip(): continue`) is the
+    assembly `assembleNB` of the non-blank parts, in their order: a blank part is not submitted, adds no text, no
+    delimiter, no map entries and shifts nothing -/
+theorem C14_assemble_skips_blank (ps : List (Part × List RawMatch)) :
+    assemble ps = assembleNB (ps.filter (fun p => !isBlank p.1.plain)) :=
+  assemble_eq_filter ps
+
+theorem C14_assemble_nonblank (ps : List (Part × List RawMatch)) (h : ∀ p ∈ ps, isBlank p.1.plain = false) :
+    assemble ps = assembleNB ps :=
+  assemble_nonblank ps h
+
 theorem C14_assemble_lengths (ps : List (Part × List RawMatch)) (h : ∀ p ∈ ps, p.1.plain.length = p.1.charmap.length) :
-    (assemble ps).plainTot.length = (assemble ps).charmapTot.length :=
+    (assembleNB ps).plainTot.length = (assembleNB ps).charmapTot.length :=
   assemble_lengths ps h
 
 theorem C14_sorted (cmt : List Int) (ms out : List RawMatch) (h : sortMatches cmt ms = .ok out) :
